@@ -64,9 +64,10 @@ func strConverter(dec *Decoder, o interface{}, p interface{}) {
 	case fmt.GoStringer:
 		*(*string)(reflect2.PtrOf(p)) = o.GoString()
 	default:
-		if reflect.TypeOf(o).Kind() == reflect.Map {
-			// a map read from the wire can contain itself (an object referring to itself):
-			// fmt.Sprint would recurse until the stack is exhausted
+		// a map read from the wire can contain itself, or the same map many times over (through references),
+		// and fmt.Sprint follows slices, arrays, struct fields and interfaces down to it without looking: it would
+		// recurse until the stack is exhausted, or print a text exponentially longer than the input
+		if reachesMap(reflect.ValueOf(o), true) {
 			if dec.Error == nil {
 				dec.Error = CastError{Source: reflect.TypeOf(o), Destination: stringType}
 			}
@@ -74,6 +75,44 @@ func strConverter(dec *Decoder, o interface{}, p interface{}) {
 		}
 		*(*string)(reflect2.PtrOf(p)) = fmt.Sprint(o)
 	}
+}
+
+// reachesMap reports whether fmt.Sprint(v) would print a map: itself, or inside the slices, arrays, struct
+// fields and interfaces it follows (a pointer is followed only at the top; deeper, fmt prints the address).
+func reachesMap(v reflect.Value, top bool) bool {
+	switch v.Kind() {
+	case reflect.Map:
+		return true
+	case reflect.Interface:
+		return !v.IsNil() && reachesMap(v.Elem(), false)
+	case reflect.Ptr:
+		if !top || v.IsNil() {
+			return false
+		}
+		switch v.Elem().Kind() {
+		case reflect.Array, reflect.Slice, reflect.Struct, reflect.Map:
+			return reachesMap(v.Elem(), false)
+		}
+		return false
+	case reflect.Slice, reflect.Array:
+		switch v.Type().Elem().Kind() {
+		case reflect.Interface, reflect.Slice, reflect.Array, reflect.Struct, reflect.Map:
+			for i, n := 0, v.Len(); i < n; i++ {
+				if reachesMap(v.Index(i), false) {
+					return true
+				}
+			}
+		}
+		return false
+	case reflect.Struct:
+		for i, n := 0, v.NumField(); i < n; i++ {
+			if reachesMap(v.Field(i), false) {
+				return true
+			}
+		}
+		return false
+	}
+	return false
 }
 
 func assignTo(dec *Decoder, o interface{}, p interface{}) {
